@@ -72,6 +72,7 @@ def main():
     ap.add_argument("--all-checks", action="store_true")
     ap.add_argument("--in-repo", action="store_true")
     ap.add_argument("--jobs", type=int, default=6)
+    ap.add_argument("--merge", action="store_true", help="with ids: replace / add their entries in seeded/RESULTS.json (dropping entries of changes that are no longer kept)")
     a = ap.parse_args()
     root = os.path.join(VERIF, "seeded")
     ids = sorted(x for x in os.listdir(root) if os.path.isdir(os.path.join(root, x)) and os.path.exists(os.path.join(root, x, "meta.json")))
@@ -94,6 +95,17 @@ def main():
     if not a.ids:
         with open(os.path.join(root, "RESULTS.json"), "w") as f:
             json.dump({"tier": a.tier, "all_checks": a.all_checks, "results": results}, f, indent=1)
+    elif a.merge:
+        path = os.path.join(root, "RESULTS.json")
+        old = json.load(open(path))
+        kept = set(x for x in os.listdir(root) if os.path.isdir(os.path.join(root, x)))
+        by_id = {r["id"]: r for r in old["results"] if r["id"] in kept}
+        for r in results:
+            by_id[r["id"]] = r
+        old["results"] = [by_id[k] for k in sorted(by_id)]
+        with open(path, "w") as f:
+            json.dump(old, f, indent=1)
+        print("RESULTS.json now holds %d entries (%d not caught)" % (len(old["results"]), sum(1 for r in old["results"] if not r.get("caught_by"))))
     return 0 if ok else 1
 
 
